@@ -18,6 +18,15 @@ _src = os.path.join(REPO, "src")
 if sys.path[0] != _src:
     sys.path.insert(0, _src)
 
+import warnings  # noqa: E402
+
+warnings.filterwarnings("ignore")
+try:
+    from rdkit import RDLogger  # noqa: E402
+    RDLogger.DisableLog("rdApp.*")
+except Exception:  # noqa: BLE001
+    pass
+
 import stereomolgraph  # noqa: E402
 
 assert os.path.realpath(stereomolgraph.__file__).startswith(os.path.realpath(_src)), (
